@@ -165,6 +165,12 @@ func (tc *tokenConverter) handleCompoundToken(t models.TokenWithSpan) []token.To
 		}
 	}
 
+	// The spelling decides only for keyword tokens: a string literal, a quoted identifier or a
+	// placeholder whose text happens to be 'ORDER BY' or "LEFT JOIN" is data, not two keywords.
+	if t.Token.Type != models.TokenTypeKeyword {
+		return nil
+	}
+
 	switch t.Token.Value {
 	case "INNER JOIN":
 		return []token.Token{
